@@ -72,16 +72,26 @@ def runCase (s : DSt) : String :=
   let skipped := (verdicts.filter (fun v => match v with | .skip _ => true | _ => false)).length
   let ord := judgeOrder (real.filter (!·.isIgnored))
   let docsBad := (real.filter (fun t => !t.isIgnored && !judgeDocs cfg s.src ms t)).length
+  let loc := judgeLocal cfg s.src ms real
+  let nm := names cfg ms
+  let arrbad := ((List.range nm.length).filter (fun j =>
+    match nm[j]? with
+    | some b => (nm.take j).any (fun a => decide (b.e < a.s))
+    | none => false)).length
   let j := match s.err, fails, ord with
     | some e, _, _ => s!"FAIL:error:generate_tags_failed_or_panicked:{e}".replace " " "_"
     | none, f :: _, _ => f.replace " " "_"
     | none, [], some o => s!"FAIL:order:{o}".replace " " "_"
-    | none, [], none => if docsBad > 0 then s!"FAIL:docs:{docsBad}_tags" else "ok"
+    | none, [], none =>
+      if docsBad > 0 then s!"FAIL:docs:{docsBad}_tags"
+      else match loc with
+        | some l => s!"FAIL:local:{l}".replace " " "_"
+        | none => "ok"
   let (multi, na) := stats s.src real
   let lz := match lossy with
     | [] => "-"
     | m :: _ => m.replace " " "_"
-  s!"{s.id} corr={corr.replace " " "_"} vars={vars} judge={j} tags={real.length} matches={ms.length} skipped={skipped} lossy={lossy.length} lossymsg={lz} multi={multi} nonascii={na} cfgbad={if cfg.invalid then 1 else 0}"
+  s!"{s.id} corr={corr.replace " " "_"} vars={vars} judge={j} tags={real.length} matches={ms.length} skipped={skipped} lossy={lossy.length} lossymsg={lz} multi={multi} nonascii={na} cfgbad={if cfg.invalid then 1 else 0} names={nm.length} arrbad={arrbad}"
 
 def step (s : DSt) (line : String) : IO DSt := do
   match line.splitOn " " with
